@@ -16,6 +16,11 @@ pub fn dispatch(kind: &str, v: &Value) -> Option<Outcome> {
         "history" => serde_json::from_value::<HistCase>(v.clone()).ok().map(|c| c.run()),
         "c07-scalar" | "c07-any" => crate::c07::dispatch(kind, v),
         "c06" | "forward-op-sequence" => crate::c06::dispatch(kind, v),
+        "c09" | "c09-iff" => crate::c09::dispatch(kind, v),
+        "c10" => crate::c10::dispatch(kind, v),
+        "c12" => crate::c12::dispatch(kind, v),
+        "c13" => crate::c13::dispatch(kind, v),
+        "c17" => crate::c17::dispatch(kind, v),
         "c03-any" => crate::c03::dispatch(kind, v),
         _ => None,
     }
@@ -27,7 +32,22 @@ pub fn run(ctx: &Ctx) -> i32 {
         return 2;
     }
     let mut st = ctx.run_replays(&dispatch);
-    let parts: [(&str, fn(&Ctx) -> Stats); 7] = [("C04", crate::c04::campaigns), ("C05", crate::c05::campaigns), ("C06", crate::c06::campaigns), ("C07", crate::c07::campaigns), ("C02", crate::c02::campaigns), ("C03", crate::c03::campaigns), ("C01", crate::c01::campaigns)];
+    // the case spaces the property names (C01-C07), and - because "every value and gradient guarantee above holds
+    // unchanged" - also the relation-based checks whose oracles do not depend on the float width
+    let parts: [(&str, fn(&Ctx) -> Stats); 12] = [
+        ("C04", crate::c04::campaigns),
+        ("C05", crate::c05::campaigns),
+        ("C06", crate::c06::campaigns),
+        ("C07", crate::c07::campaigns),
+        ("C02", crate::c02::campaigns),
+        ("C03", crate::c03::campaigns),
+        ("C01", crate::c01::campaigns),
+        ("C09", crate::c09::campaigns),
+        ("C10", crate::c10::campaigns),
+        ("C12", crate::c12::campaigns),
+        ("C13", crate::c13::campaigns),
+        ("C17", crate::c17::campaigns),
+    ];
     let mut per = vec![];
     for (name, f) in parts {
         let mut s = f(ctx);
